@@ -956,7 +956,8 @@ Proof.
   unfold lift, read_le. pose proof (read_app (le_encode 6 (Z.to_N z)) rest) as E.
   rewrite le_encode_length in E. rewrite E, le_encode_length. cbn [Nat.ltb Nat.leb bind].
   rewrite le_decode_encode_mod. unfold n2v. do 2 f_equal.
-  change (256 ^ N.of_nat 6) with 281474976710656. change (2 ^ 48)%Z with 281474976710656%Z. lia.
+  change (256 ^ N.of_nat 6) with 281474976710656. change (2 ^ 48)%Z with 281474976710656%Z.
+  destruct H as [H0 _]. rewrite N2Z.inj_mod, Z2N.id by lia. reflexivity.
 Qed.
 End Named.
 
@@ -968,10 +969,11 @@ Lemma peer_address_forms {TxV BlockV HdrV} (s : Z) (ip : bytes) (p : Z) :
   (length ip = 16%nat -> @mk_addr TxV BlockV HdrV ip4_header s ip p = Ret (VAddr s ip p)) /\
   (length ip <> 4%nat -> length ip <> 16%nat -> @mk_addr TxV BlockV HdrV ip4_header s ip p = Raise E_ASSERT).
 Proof.
-  unfold mk_addr. repeat split.
-  - rewrite H. cbn [Nat.eqb]. rewrite app_length, H. reflexivity.
-  - rewrite app_length, H. reflexivity.
-  - intros H. rewrite H. reflexivity.
+  unfold mk_addr. split; [|split].
+  - intros H. rewrite H. cbn [Nat.eqb].
+    assert (L : length (ip4_header ++ ip) = 16%nat) by (rewrite app_length, H; reflexivity).
+    rewrite L. split; reflexivity.
+  - intros H. rewrite H. cbn [Nat.eqb]. rewrite H. reflexivity.
   - intros H4 H16. destruct (length ip =? 4)%nat eqn:E4; [apply Nat.eqb_eq in E4; contradiction|].
     destruct (length ip =? 16)%nat eqn:E16; [apply Nat.eqb_eq in E16; contradiction|reflexivity].
 Qed.
@@ -982,7 +984,7 @@ Lemma inv_item_forms {TxV BlockV HdrV} (t : Z) (d : bytes) :
   (length d <> 32%nat -> forall dc, @mk_inv TxV BlockV HdrV inv_checked_types t d dc = Raise E_ASSERT).
 Proof.
   unfold mk_inv. repeat split.
-  - intros H Ht. rewrite H. destruct Ht as [->|[->|->]]; reflexivity.
+  - intros H Ht. rewrite H. destruct Ht as [-> | [-> | ->]]; reflexivity.
   - intros H. rewrite H. reflexivity.
   - intros H dc. destruct (length d =? 32)%nat eqn:E; [apply Nat.eqb_eq in E; contradiction|].
     destruct (negb dc && _); reflexivity.
